@@ -4,7 +4,7 @@
    contracts (hypotheses on the cipher/MAC/AEAD oracles): Spec/C01_Contracts.v. *)
 From Coq Require Import ZArith List Bool.
 From TV Require Import Base.Prelude Spec.CbcCheck Model.C01_RecordPipe Spec.C01_Contracts
-  Proofs.C01_Lists Proofs.C01_Fragment Proofs.C01_RoundTrip Proofs.C01_Delivery Proofs.C01_ToyOk.
+  Proofs.C01_Lists Proofs.C01_Fragment Proofs.C01_RoundTrip Proofs.C01_Delivery Proofs.C01_ToyOk Proofs.C01_Close.
 Import ListNotations.
 Open Scope Z_scope.
 
@@ -149,6 +149,20 @@ Theorem read_call_bounds : forall (mx : option Z) (mn : Z) (buf : list Z) (arr :
                (match mx with Some m => 0 <= m -> zlen out <= m | None => b' = [] end) /\
                (rest <> [] -> match mx with Some m => Z.min mn m <= zlen out | None => mn <= zlen out end).
 Proof. exact read_call_spec. Qed.
+
+(* readAsync(max, min) with min > 1 when the peer closes (close_notify, or an abrupt close with
+   ignoreAbruptClose) anywhere in the stream: returned ++ still buffered = buffered before ++ data of
+   everything consumed -- the tail waiting for `min` bytes is not lost at the close *)
+Theorem read_fifo_close : forall (calls : list (option Z * Z)) (buf : list Z) (cl : bool) (arr : list arrival)
+    (outs : list (list Z)) (b' : list Z) (cl' : bool) (rest : list arrival),
+  read_calls_c calls buf cl arr = (outs, b', cl', rest) ->
+  exists used, arr = used ++ rest /\ concat outs ++ b' = buf ++ data_of used.
+Proof. exact read_calls_c_spec. Qed.
+
+(* ... and after the close every call hands out the buffer (up to max) without reading anything *)
+Theorem read_after_close_drains : forall (m mn : Z) (buf : list Z) (arr : list arrival),
+  read_call_c (Some m) mn buf true arr = (ztake m buf, zdrop m buf, true, arr).
+Proof. exact drain_after_close_l. Qed.
 
 (* ---- record_size_limit: what the negotiation code installs as send_record_limit ------------------- *)
 Theorem limit_in_force : forall (tls13 client : bool) (ext : Z),
